@@ -670,3 +670,315 @@ Proof.
 Qed.
 
 End Rename.
+
+(* ------------------------------------------------------------------ the checker pass is sound for execution:
+   a program whose every branch resolves (Static) runs without an unresolved name (Dynamic) *)
+
+Lemma shape_cons_inv : forall f r e', shape (f :: r) = shape e' ->
+  exists g r', e' = g :: r' /\ ftyp g = ftyp f /\ frame_names g = frame_names f /\ shape r = shape r'.
+Proof.
+  intros f r [|g r'] H; cbn in H; [discriminate|]. injection H as Ht Hn Hr. exists g, r'. auto.
+Qed.
+
+Lemma get_names : forall f g x, frame_names f = frame_names g ->
+  (get f x = None <-> get g x = None).
+Proof.
+  intros f g x H. unfold get. rewrite !lookup_none_names. fold (frame_names f). fold (frame_names g).
+  now rewrite H.
+Qed.
+
+Lemma resolve_shape : forall r r' x u, shape r = shape r' ->
+  option_map fst (resolve r x u) = option_map fst (resolve r' x u).
+Proof.
+  induction r as [|f r IH]; intros r' x u H.
+  - destruct r'; [reflexivity | discriminate].
+  - destruct (shape_cons_inv _ _ _ H) as (g & r0 & -> & Ht & Hn & Hr). cbn [resolve].
+    rewrite Ht.
+    assert (S : forall a b, option_map fst a = option_map fst b -> option_map fst (shift a) = option_map fst (shift b)).
+    { intros [[d v]|] [[d' v']|]; cbn; congruence. }
+    destruct (get f x) eqn:Ef; destruct (get g x) eqn:Eg.
+    + reflexivity.
+    + exfalso. assert (get f x = None) by (apply (get_names g f x Hn); auto). congruence.
+    + exfalso. assert (get g x = None) by (apply (get_names g f x Hn); auto). congruence.
+    + destruct (ftyp f); try destruct u; auto.
+Qed.
+
+Definition is_some {A} (o : option A) : bool := match o with Some _ => true | None => false end.
+
+Lemma eval_shape : forall e r r' u, shape r = shape r' -> is_some (eval r u e) = is_some (eval r' u e).
+Proof.
+  induction e; intros r r' u H; cbn [eval].
+  - reflexivity.
+  - pose proof (resolve_shape r r' x u H) as G.
+    destruct (resolve r x u) as [[d v]|]; destruct (resolve r' x u) as [[d' v']|]; cbn in *; congruence.
+  - pose proof (IHe1 r r' u H). pose proof (IHe2 r r' u H).
+    destruct (eval r u e1); destruct (eval r' u e1); destruct (eval r u e2); destruct (eval r' u e2); cbn in *; congruence.
+  - apply IHe; auto.
+Qed.
+
+Lemma shape_add : forall f g x v w, ftyp f = ftyp g -> frame_names f = frame_names g ->
+  (ftyp (add f x v), frame_names (add f x v)) = (ftyp (add g x w), frame_names (add g x w)).
+Proof.
+  intros f g x v w Ht Hn. unfold add, frame_names in *. cbn. rewrite !names_set, Hn, Ht. reflexivity.
+Qed.
+
+Lemma scoped_shape : forall m t r u b r1 o,
+  scoped t r (fun r' => run m r' u b) = Some (r1, o) -> shape r1 = shape r.
+Proof.
+  intros m t r u b r1 o H. unfold scoped, push in H.
+  destruct (run m (mkFrame t [] :: r) u b) as [[r2 o2]|] eqn:E; [|discriminate].
+  injection H as <- <-. destruct (run_shape _ _ _ _ _ _ _ E) as (f' & r' & -> & _ & Hs). exact Hs.
+Qed.
+
+Lemma shape_push : forall t r r', shape r = shape r' -> shape (mkFrame t [] :: r) = shape (mkFrame t [] :: r').
+Proof. intros t r r' H. unfold shape in *. cbn. now rewrite H. Qed.
+
+Lemma static_sound : forall s r r' u r1 o1,
+  shape r = shape r' -> run Static r u s = Some (r1, o1) ->
+  exists r2 o2, run Dynamic r' u s = Some (r2, o2) /\ shape r2 = shape r1.
+Proof.
+  induction s; intros r r' u r1 o1 Hs H; cbn [run] in *.
+  - injection H as <- <-. eauto.
+  - unfold bind in *. destruct (run Static r u s1) as [[ra oa]|] eqn:Ea; [|discriminate].
+    destruct (run Static ra u s2) as [[rb ob]|] eqn:Eb; [|discriminate]. injection H as <- <-.
+    destruct (IHs1 _ _ _ _ _ Hs Ea) as (ra' & oa' & -> & Hsa).
+    destruct (IHs2 _ _ _ _ _ (eq_sym Hsa) Eb) as (rb' & ob' & -> & Hsb). eauto.
+  - pose proof (eval_shape e r r' u Hs) as G.
+    destruct (eval r u e) as [v|]; [|discriminate]. destruct (eval r' u e) as [v'|]; [|discriminate].
+    destruct r as [|f r0]; [discriminate|]. injection H as <- <-.
+    destruct (shape_cons_inv _ _ _ Hs) as (g & r0' & -> & Ht & Hn & Hr).
+    exists (add g x v' :: r0'), []. split; [reflexivity|]. cbn [shape map].
+    rewrite (shape_add g f x v' v Ht Hn). f_equal. symmetry. exact Hr.
+  - pose proof (eval_shape e r r' u Hs) as G. pose proof (resolve_shape r r' x u Hs) as G2.
+    destruct (eval r u e) as [v|]; [|discriminate]. destruct (eval r' u e) as [v'|]; [|discriminate].
+    destruct (resolve r x u) as [[d w]|]; [|discriminate].
+    destruct (resolve r' x u) as [[d' w']|]; [|discriminate]. injection H as <- <-.
+    eexists _, _. split; [reflexivity|]. rewrite !shape_update. symmetry. exact Hs.
+  - pose proof (eval_shape e r r' u Hs) as G.
+    destruct (eval r u e) as [v|]; [|discriminate]. destruct (eval r' u e) as [v'|]; [|discriminate].
+    injection H as <- <-. eauto.
+  - unfold scoped, push in *.
+    destruct (run Static (mkFrame FDefault [] :: r) u s) as [[ra oa]|] eqn:Ea; [|discriminate]. injection H as <- <-.
+    assert (Hp : shape (mkFrame FDefault [] :: r) = shape (mkFrame FDefault [] :: r')) by (apply shape_push; assumption).
+    destruct (IHs _ _ _ _ _ Hp Ea) as (ra' & oa' & -> & Hsa). eexists _, _. split; [reflexivity|].
+    unfold pop. destruct ra', ra; cbn in *; try discriminate; auto. now injection Hsa.
+  - unfold scoped at 1 in H. unfold scoped at 1. unfold push in *.
+    assert (Hp : shape (mkFrame FDefault [] :: r) = shape (mkFrame FDefault [] :: r')) by (apply shape_push; assumption).
+    pose proof (eval_shape c _ _ u Hp) as G.
+    destruct (eval (mkFrame FDefault [] :: r) u c) as [v|]; [|discriminate].
+    destruct (eval (mkFrame FDefault [] :: r') u c) as [v'|]; [|discriminate].
+    unfold bind in H.
+    destruct (scoped FCond (mkFrame FDefault [] :: r) (fun r2 => run Static r2 u s1)) as [[ra oa]|] eqn:Ea; [|discriminate].
+    destruct (scoped FCond ra (fun r2 => run Static r2 u s2)) as [[rb ob]|] eqn:Eb; [|discriminate].
+    injection H as <- <-.
+    pose proof (scoped_shape _ _ _ _ _ _ _ Ea) as Sa. pose proof (scoped_shape _ _ _ _ _ _ _ Eb) as Sb.
+    assert (Branch : forall sb rin rin' rout oo,
+              (forall r r' u r1 o1, shape r = shape r' -> run Static r u sb = Some (r1, o1) ->
+                 exists r2 o2, run Dynamic r' u sb = Some (r2, o2) /\ shape r2 = shape r1) ->
+              shape rin = shape rin' ->
+              scoped FCond rin (fun r2 => run Static r2 u sb) = Some (rout, oo) ->
+              exists r2 o2, scoped FCond rin' (fun r2 => run Dynamic r2 u sb) = Some (r2, o2) /\ shape r2 = shape rin').
+    { intros sb rin rin' rout oo IHb Hin Hrun. unfold scoped, push in *.
+      destruct (run Static (mkFrame FCond [] :: rin) u sb) as [[rc oc]|] eqn:Ec; [|discriminate].
+      assert (Hq : shape (mkFrame FCond [] :: rin) = shape (mkFrame FCond [] :: rin')) by (apply shape_push; assumption).
+      destruct (IHb _ _ _ _ _ Hq Ec) as (rc' & oc' & Erun & Hsc). rewrite Erun.
+      eexists _, _. split; [reflexivity|].
+      destruct (run_shape _ _ _ _ _ _ _ Erun) as (f' & r0 & -> & _ & Hs0). exact Hs0. }
+    destruct (Z.ltb 0 v').
+    + destruct (Branch s1 _ _ _ _ IHs1 Hp Ea) as (r2 & o2 & -> & S2).
+      eexists _, _. split; [reflexivity|]. unfold pop.
+      assert (shape r2 = shape rb) by congruence.
+      destruct r2, rb; cbn in *; try discriminate; auto. now injection H.
+    + assert (Hq : shape ra = shape (mkFrame FDefault [] :: r')) by congruence.
+      destruct (Branch s2 _ _ _ _ IHs2 Hq Eb) as (r2 & o2 & -> & S2).
+      eexists _, _. split; [reflexivity|]. unfold pop.
+      assert (shape r2 = shape rb) by congruence.
+      destruct r2, rb; cbn in *; try discriminate; auto. now injection H.
+  - unfold scoped, push in *.
+    destruct (run Static (mkFrame FBoundary [] :: r) u s) as [[ra oa]|] eqn:Ea; [|discriminate]. injection H as <- <-.
+    assert (Hp : shape (mkFrame FBoundary [] :: r) = shape (mkFrame FBoundary [] :: r')) by (apply shape_push; assumption).
+    destruct (IHs _ _ _ _ _ Hp Ea) as (ra' & oa' & -> & Hsa). eexists _, _. split; [reflexivity|].
+    unfold pop. destruct ra', ra; cbn in *; try discriminate; auto. now injection Hsa.
+  - eapply IHs; eauto.
+Qed.
+
+Theorem checked_programs_run : forall s r u,
+  run Static r u s <> None -> run Dynamic r u s <> None.
+Proof.
+  intros s r u H. destruct (run Static r u s) as [[r1 o1]|] eqn:E; [|contradiction].
+  destruct (static_sound s r r u r1 o1 eq_refl E) as (r2 & o2 & -> & _). discriminate.
+Qed.
+
+(* ------------------------------------------------------------------ all boundaries expanded by hand *)
+
+Lemma expr_below_mono : forall T T' e, (T <= T')%N -> expr_below T e = true -> expr_below T' e = true.
+Proof.
+  induction e; intros Hle H; cbn in *; auto.
+  - apply N.ltb_lt in H. apply N.ltb_lt. lia.
+  - apply andb_true_iff in H as [H1 H2]. rewrite IHe1, IHe2; auto.
+Qed.
+
+Lemma stmt_below_mono : forall T T' s, (T <= T')%N -> stmt_below T s = true -> stmt_below T' s = true.
+Proof.
+  induction s; intros Hle H; cbn in *; auto.
+  - apply andb_true_iff in H as [H1 H2]. rewrite IHs1, IHs2; auto.
+  - apply andb_true_iff in H as [H1 H2]. apply N.ltb_lt in H1.
+    rewrite (expr_below_mono T T' e Hle H2). replace (N.ltb x T') with true; auto. symmetry. apply N.ltb_lt. lia.
+  - apply andb_true_iff in H as [H1 H2]. apply N.ltb_lt in H1.
+    rewrite (expr_below_mono T T' e Hle H2). replace (N.ltb x T') with true; auto. symmetry. apply N.ltb_lt. lia.
+  - eapply expr_below_mono; eauto.
+  - apply andb_true_iff in H as [H H3]. apply andb_true_iff in H as [H1 H2].
+    rewrite (expr_below_mono T T' c Hle H1), IHs1, IHs2; auto.
+Qed.
+
+Lemma env_below_mono : forall T T' r, (T <= T')%N -> env_below T r = true -> env_below T' r = true.
+Proof.
+  intros T T' r Hle. unfold env_below, frame_below. induction r as [|f r IH]; cbn; auto.
+  intro H. apply andb_true_iff in H as [H1 H2]. rewrite IH; auto. rewrite andb_true_r.
+  clear IH H2. induction (fvars f) as [|p l IHl]; cbn in *; auto.
+  apply andb_true_iff in H1 as [Ha Hb]. rewrite IHl; auto. rewrite andb_true_r.
+  apply N.ltb_lt in Ha. apply N.ltb_lt. lia.
+Qed.
+
+Lemma frame_below_add : forall T f x v, frame_below T f = true -> (x < T)%N -> frame_below T (add f x v) = true.
+Proof.
+  intros T f x v H Hx. unfold frame_below, add in *. cbn. induction (fvars f) as [|[y w] l IH]; cbn in *.
+  - rewrite andb_true_r. now apply N.ltb_lt.
+  - apply andb_true_iff in H as [H1 H2]. destruct (N.eqb x y); cbn; rewrite H1; cbn; auto.
+Qed.
+
+Lemma scoped_below : forall T t r k r' o,
+  (forall r1, env_below T r1 = true -> forall r2 o2, k r1 = Some (r2, o2) -> env_below T r2 = true) ->
+  env_below T r = true -> scoped t r k = Some (r', o) -> env_below T r' = true.
+Proof.
+  intros T t r k r' o Hk Hr H. unfold scoped, push in H.
+  destruct (k (mkFrame t [] :: r)) as [[r2 o2]|] eqn:E; [|discriminate]. injection H as <- <-.
+  assert (Hp : env_below T (mkFrame t [] :: r) = true) by (cbn; exact Hr).
+  specialize (Hk _ Hp _ _ E). destruct r2; cbn in *; auto. apply andb_true_iff in Hk as [_ Hk]. exact Hk.
+Qed.
+
+Lemma run_below : forall T s m r u r' o,
+  env_below T r = true -> stmt_below T s = true -> run m r u s = Some (r', o) -> env_below T r' = true.
+Proof.
+  induction s; intros m r u r' o Hr Hs H; cbn [run stmt_below] in *.
+  - injection H as <- <-. exact Hr.
+  - apply andb_true_iff in Hs as [Hs1 Hs2]. unfold bind in H.
+    destruct (run m r u s1) as [[ra oa]|] eqn:Ea; [|discriminate].
+    destruct (run m ra u s2) as [[rb ob]|] eqn:Eb; [|discriminate]. injection H as <- <-.
+    eapply IHs2; [eapply IHs1; eauto | exact Hs2 | exact Eb].
+  - apply andb_true_iff in Hs as [Hx He]. apply N.ltb_lt in Hx.
+    destruct (eval r u e); [|discriminate]. destruct r as [|f r0]; [discriminate|]. injection H as <- <-.
+    cbn in *. apply andb_true_iff in Hr as [H1 H2]. rewrite H2, andb_true_r. now apply frame_below_add.
+  - destruct (eval r u e); [|discriminate]. destruct (resolve r x u) as [[d w]|]; [|discriminate].
+    injection H as <- <-. rewrite (env_below_shape T _ r (shape_update r d x z)). exact Hr.
+  - destruct (eval r u e); [|discriminate]. injection H as <- <-. exact Hr.
+  - eapply scoped_below; [|exact Hr|exact H]. intros r1 Hr1 r2 o2 E. cbn beta in E. eapply IHs; [exact Hr1|exact Hs|exact E].
+  - apply andb_true_iff in Hs as [Hs Hs2]. apply andb_true_iff in Hs as [Hc Hs1].
+    eapply scoped_below; [|exact Hr|exact H]. intros r1 Hr1 r2 o2 E. cbn beta in E.
+    destruct (eval r1 u c); [|discriminate].
+    assert (B1 : forall ra rb ob, env_below T ra = true ->
+               scoped FCond ra (fun r2 => run m r2 u s1) = Some (rb, ob) -> env_below T rb = true).
+    { intros ra rb ob Ha Eb. eapply scoped_below; [|exact Ha|exact Eb]. intros r3 H3 r4 o4 E4. cbn beta in E4. eapply IHs1; [exact H3|exact Hs1|exact E4]. }
+    assert (B2 : forall ra rb ob, env_below T ra = true ->
+               scoped FCond ra (fun r2 => run m r2 u s2) = Some (rb, ob) -> env_below T rb = true).
+    { intros ra rb ob Ha Eb. eapply scoped_below; [|exact Ha|exact Eb]. intros r3 H3 r4 o4 E4. cbn beta in E4. eapply IHs2; [exact H3|exact Hs2|exact E4]. }
+    destruct m.
+    + unfold bind in E.
+      destruct (scoped FCond r1 (fun r2 => run Static r2 u s1)) as [[ra oa]|] eqn:Ea; [|discriminate].
+      destruct (scoped FCond ra (fun r2 => run Static r2 u s2)) as [[rb ob]|] eqn:Eb; [|discriminate].
+      injection E as <- <-. eapply B2; [eapply B1; eauto | exact Eb].
+    + destruct (Z.ltb 0 z); [eapply B1 | eapply B2]; eauto.
+  - eapply scoped_below; [|exact Hr|exact H]. intros r1 Hr1 r2 o2 E. cbn beta in E. eapply IHs; [exact Hr1|exact Hs|exact E].
+  - eapply IHs; eauto.
+Qed.
+
+Section RenBelow.
+Variables (T T' : N) (sg : name -> name).
+Hypothesis T_le : (T <= T')%N.
+Hypothesis sg_lt : forall x, (x < T)%N -> (sg x < T')%N.
+
+Lemma ren_name_below : forall sc u x, (x < T)%N -> (ren_name sg sc u x < T')%N.
+Proof. intros sc u x Hx. unfold ren_name. destruct u; [destruct (bound sc x)|]; auto; lia. Qed.
+
+Lemma rename_expr_below : forall e sc u, expr_below T e = true -> expr_below T' (rename_expr sg sc u e) = true.
+Proof.
+  induction e; intros sc u H; cbn in *; auto.
+  - apply N.ltb_lt in H. apply N.ltb_lt. now apply ren_name_below.
+  - apply andb_true_iff in H as [H1 H2]. rewrite IHe1, IHe2; auto.
+Qed.
+
+Lemma rename_below : forall s sc u, stmt_below T s = true -> stmt_below T' (fst (rename sg sc u s)) = true.
+Proof.
+  induction s; intros sc u H; cbn [rename stmt_below] in *; auto.
+  - apply andb_true_iff in H as [H1 H2]. pose proof (IHs1 sc u H1) as G1.
+    destruct (rename sg sc u s1) as [a' sc1]. pose proof (IHs2 sc1 u H2) as G2.
+    destruct (rename sg sc1 u s2) as [b' sc2]. cbn in *. now rewrite G1, G2.
+  - apply andb_true_iff in H as [H1 H2]. apply N.ltb_lt in H1. cbn.
+    rewrite rename_expr_below; auto. rewrite andb_true_r. apply N.ltb_lt. auto.
+  - apply andb_true_iff in H as [H1 H2]. apply N.ltb_lt in H1. cbn.
+    rewrite rename_expr_below; auto. rewrite andb_true_r. apply N.ltb_lt. now apply ren_name_below.
+  - cbn. now apply rename_expr_below.
+  - cbn. now apply IHs.
+  - apply andb_true_iff in H as [H H3]. apply andb_true_iff in H as [H1 H2]. cbn.
+    rewrite rename_expr_below, IHs1, IHs2; auto.
+  - cbn. now apply IHs.
+  - pose proof (IHs sc true H) as G. destruct (rename sg sc true s) as [b' sc']. cbn in *. exact G.
+Qed.
+End RenBelow.
+
+Lemma scoped_ext : forall t r k1 k2, k1 (push t r) = k2 (push t r) -> scoped t r k1 = scoped t r k2.
+Proof. intros. unfold scoped. now rewrite H. Qed.
+
+Theorem expand_all_equiv : forall s n u,
+  stmt_below n s = true ->
+  (n <= snd (expand_all n u s))%N /\
+  stmt_below (snd (expand_all n u s)) (fst (expand_all n u s)) = true /\
+  forall m r, env_below n r = true -> run m r u (fst (expand_all n u s)) = run m r u s.
+Proof.
+  induction s; intros n u Hs; cbn [expand_all stmt_below] in *;
+    try (cbn; repeat split; auto; lia).
+  - apply andb_true_iff in Hs as [Hs1 Hs2].
+    destruct (IHs1 n u Hs1) as (L1 & B1 & R1). destruct (expand_all n u s1) as [a' n1]. cbn [fst snd] in *.
+    destruct (IHs2 n1 u (stmt_below_mono n n1 s2 L1 Hs2)) as (L2 & B2 & R2).
+    destruct (expand_all n1 u s2) as [b' n2]. cbn [fst snd] in *.
+    split; [lia|]. split.
+    + cbn. rewrite (stmt_below_mono n1 n2 a' L2 B1), B2. reflexivity.
+    + intros m r Hr. cbn [run]. rewrite (R1 m r Hr). unfold bind.
+      destruct (run m r u s1) as [[ra oa]|] eqn:Ea; [|reflexivity].
+      rewrite R2; [reflexivity|]. apply (env_below_mono n n1 ra L1). exact (run_below n s1 m r u ra oa Hr Hs1 Ea).
+  - destruct (IHs n u Hs) as (L1 & B1 & R1). destruct (expand_all n u s) as [b' n1]. cbn [fst snd] in *.
+    split; [exact L1|]. split; [exact B1|]. intros m r Hr. cbn [run]. apply scoped_ext. apply R1. cbn. exact Hr.
+  - apply andb_true_iff in Hs as [Hs Hs2]. apply andb_true_iff in Hs as [Hc Hs1].
+    destruct (IHs1 n u Hs1) as (L1 & B1 & R1). destruct (expand_all n u s1) as [t' n1]. cbn [fst snd] in *.
+    destruct (IHs2 n1 u (stmt_below_mono n n1 s2 L1 Hs2)) as (L2 & B2 & R2).
+    destruct (expand_all n1 u s2) as [e' n2]. cbn [fst snd] in *.
+    split; [lia|]. split.
+    + cbn. rewrite (expr_below_mono n n2 c ltac:(lia) Hc), (stmt_below_mono n1 n2 t' L2 B1), B2. reflexivity.
+    + intros m r Hr. cbn [run]. apply scoped_ext. cbn beta.
+      assert (Hp : env_below n (push FDefault r) = true) by (cbn; exact Hr).
+      destruct (eval (push FDefault r) u c); [|reflexivity].
+      assert (E1 : forall ra, env_below n ra = true ->
+                 scoped FCond ra (fun r2 => run m r2 u t') = scoped FCond ra (fun r2 => run m r2 u s1)).
+      { intros ra Ha. apply scoped_ext. apply R1. cbn. exact Ha. }
+      assert (E2 : forall ra, env_below n ra = true ->
+                 scoped FCond ra (fun r2 => run m r2 u e') = scoped FCond ra (fun r2 => run m r2 u s2)).
+      { intros ra Ha. apply scoped_ext. apply R2. cbn. apply (env_below_mono n n1 ra L1 Ha). }
+      destruct m.
+      * rewrite (E1 _ Hp). unfold bind.
+        destruct (scoped FCond (push FDefault r) (fun r2 => run Static r2 u s1)) as [[ra oa]|] eqn:Ea; [|reflexivity].
+        rewrite E2; [reflexivity|].
+        rewrite (env_below_shape n ra (push FDefault r) (scoped_shape _ _ _ _ _ _ _ Ea)). exact Hp.
+      * destruct (Z.ltb 0 z); [apply E1 | apply E2]; exact Hp.
+  - destruct (IHs n u Hs) as (L1 & B1 & R1). destruct (expand_all n u s) as [b' n1]. cbn [fst snd] in *.
+    split; [lia|]. split.
+    + unfold expand_by_hand. cbn [stmt_below].
+      apply (rename_below n1 (n1 + n1)%N (fun x => (x + n1)%N)); auto; intros; lia.
+    + intros m r Hr.
+      rewrite (expansion_equiv n1 (fun x => (x + n1)%N)); auto.
+      * cbn [run]. apply scoped_ext. apply R1. cbn. exact Hr.
+      * intros x y H. lia.
+      * intros x. lia.
+      * apply (env_below_mono n n1 r L1 Hr).
+  - destruct (IHs n true Hs) as (L1 & B1 & R1). destruct (expand_all n true s) as [b' n1]. cbn [fst snd] in *.
+    split; [exact L1|]. split; [exact B1|]. intros m r Hr. cbn [run]. apply R1. exact Hr.
+Qed.
